@@ -1887,7 +1887,7 @@ def run(ck) -> None:
                 col.record(hc, plan, run_coop(hc, plan, col.wd, pct_chooser(r) if i % 2 else random_chooser(r),
                                               pickfn=lambda n, r=r: r.randrange(n)), "corpus-random")
     # 3. exhaustive exploration of small configurations (all schedules modulo state equality)
-    exhaust_specs = [("tiny", 1000)] * 2 if not thorough else [("tiny", 12000)] * 4 + [("small", 8000)] * 3
+    exhaust_specs = [("tiny", 800)] * 2 if not thorough else [("tiny", 10000)] * 3 + [("small", 6000)] * 2
     exhausted = []
     for k, (size, cap_runs) in enumerate(exhaust_specs):
         hc = gen_hc(rng, size, fail=(k % 2 == 1))
@@ -1907,7 +1907,7 @@ def run(ck) -> None:
             break
     ck.coverage["exhaustive_exploration"] = exhausted
     # 4. random and PCT schedules over wider configurations
-    n_cfg = 90 if not thorough else 1000
+    n_cfg = 81 if not thorough else 700
     per_cfg = 10 if not thorough else 40
     for i in range(n_cfg):
         if col.failures and len(col.failures) > 3:
@@ -1954,8 +1954,8 @@ def run(ck) -> None:
             "around": [[str(s[0]), s[1], s[2], list(s[3])] for s in res["steps"][max(0, k - 3):k + 2]],
             "outcome": res["outcome"], "cb_log": [i for i, _ in res["cb_log"]]}))
     # 6. real preemptive threads
-    soak_cfgs = 6 if not thorough else 60
-    soak_runs = 12 if not thorough else 60
+    soak_cfgs = 6 if not thorough else 40
+    soak_runs = 10 if not thorough else 50
     if col.failures:
         soak_cfgs = 0              # already failing under a replayable schedule: report that
     for i in range(soak_cfgs):
